@@ -430,6 +430,18 @@ def drive_multi(ctx, case, parts, d):
             continue
         if [tuple(c) for c in d.corr_products] != sel[0].corrprods:
             return f'{label}: corr_products are not those of the selected subarray', spanned
+        # a flag / weight selection (or any call that names neither subarray nor spectral window) stays where it is
+        for kw2 in (dict(flags='cam'), dict(weights='all'), dict(flags='all')):
+            try:
+                d.select(**kw2)
+            except Exception as e:   # noqa: BLE001
+                return f'{label} then select({kw2}) raised {type(e).__name__}: {str(e)[:80]}', spanned
+            if d.subarray != jj or d.spw != kk or [int(x) for x in d.dumps] != want or \
+                    [tuple(c) for c in d.corr_products] != sel[0].corrprods:
+                return (f'{label} then select({kw2}): the data set is now on subarray {d.subarray}, spw {d.spw} with '
+                        f'dumps {[int(x) for x in d.dumps][:8]} (a flag / weight selection changed the time, product or '
+                        f'subarray selection)'), spanned
+        ctx.tag('multi-flags-select-keeps-subarray')
         if not np.array_equal(np.asarray(d.freqs), sel[0].freqs):
             return f'{label}: channel frequencies are not those of the selected spectral window', spanned
         for name, sens, exp in (('Observation/subarray_index', want_sub, jj), ('Observation/spw_index', want_spw, kk)):
